@@ -53,6 +53,102 @@ def check_tree(root, n):
     return None
 
 
+NEST_LIMIT = 100  # the reader refuses the 101st level; the family below only needs to straddle it
+
+
+def edge_docs(rng, cfg, tier):
+    """Every kind of opener / marker / token start as the LAST byte(s) of the input (and followed by a blank, a line feed, one more
+    byte), below 0, 1, 2, limit-2 .. limit+2 levels opened by each kind of nesting construct, with and without line feeds between
+    the levels.  All of them are ill-formed or trivially short: what matters is the error range and its line/column."""
+    clj = cfg in ("clj", "both")
+    exp = cfg in ("exp", "both")
+    units = [b"[", b"(", b"{", b"#{", b"#t ", b"#_", b"[\n", b"#a/b\n", b"{:k ", b"[1 "]
+    if clj:
+        units += [b"^", b"^:m ", b"#:n{:k "]
+    mixed = [b"[", b"(", b"{", b"#{", b"#t ", b"#_"] + ([b"^:m "] if clj else [])
+    tails = [b"(", b"[", b"{", b"#{", b"#_", b"#t", b"#tag", b"#a/b", b"#:", b"#:a", b"#:a{", b"^", b"^:a", b"^{", b"#", b"##", b"##I", b"##Inf", b"\\", b"\\a", b"\\u", b"\\u00", b"\\new", b"\"", b"\"a",
+             b"\"a\\", b":", b":a", b"a/", b"a", b"1", b"1.", b"1e", b"-", b";", b"; c", b")", b"]", b"}", b"#}", b"#_#_", b"#_ 1", b"#t #", b"#t #u", b"#\n", b"# ", b"#(", b"#[", b"#\"", b"\"\"\"", b"\"\"\"\n",
+             b"\"\"\"\na", b"1_", b"0x", b"1/", b"\x7f", b"\xce", b""]
+    depths = [0, 1, 2, NEST_LIMIT - 2, NEST_LIMIT - 1, NEST_LIMIT, NEST_LIMIT + 1, NEST_LIMIT + 2]
+    sufs = [b"", b" ", b"\n", b"x", b" 1"]
+    docs = []
+    for ui, u in enumerate(units + [None]):
+        for d in depths:
+            if u is None:
+                pre = b"".join(mixed[(i * 7 + i // 3) % len(mixed)] for i in range(d))
+            else:
+                pre = u * d
+            if tier == "quick" and ui >= 4 and d in (2, NEST_LIMIT - 2, NEST_LIMIT + 2):
+                continue
+            for t in tails:
+                for s in sufs:
+                    if tier == "quick" and s in (b"x", b" 1") and (ui % 3 != len(t) % 3):
+                        continue
+                    docs.append(pre + t + s)
+    # levels opened on separate lines / after leading trivia, at random depths around the limit
+    for _ in range(200 if tier == "quick" else 3000):
+        d = rng.choice([0, 1, 3, NEST_LIMIT - 1, NEST_LIMIT, NEST_LIMIT, NEST_LIMIT + 1, rng.randint(0, NEST_LIMIT + 5)])
+        pre = b"".join(rng.choice(mixed) + rng.choice([b"", b"", b" ", b"\n", b",\n  "]) for _ in range(d))
+        docs.append(rng.choice([b"", b"\n", b"; c\n", b"  "]) + pre + rng.choice(tails) + rng.choice(sufs))
+    seen, out = set(), []
+    for d in docs:
+        if d and d not in seen:
+            seen.add(d)
+            out.append(d)
+    return out
+
+
+def check_error(rep, cfg, d, a, opt=0):
+    """0 <= start <= end <= length and recomputed line/column for a failed read; True when a finding was reported"""
+    m = U.ERR_RE.match(a)
+    if not m:
+        return False
+    so, sl, sc, eo, el, ec = map(int, m.groups()[2:8])
+    if not (0 <= so <= eo <= len(d)):
+        rep.finding("error-range", "error range %d..%d outside / inverted for input of length %d" % (so, eo, len(d)),
+                    {"kind": "read", "config": cfg, "opt": opt, "input_hex": C.hexs(d), "observed": a})
+        return True
+    if (sl, sc) != linecol(d, so) or (el, ec) != linecol(d, eo):
+        rep.finding("error-linecol", "line/column %d:%d %d:%d, recomputed %s %s" % (sl, sc, el, ec, linecol(d, so), linecol(d, eo)),
+                    {"kind": "read", "config": cfg, "opt": opt, "input_hex": C.hexs(d), "observed": a})
+        return True
+    return False
+
+
+def edge_family(rep, rng, cfg, tier):
+    found = False
+    docs = edge_docs(rng, cfg, tier)
+    for opt in (0, 1):
+        lines = K.read_lines(docs, opt)
+        if opt == 0:
+            impl, model, diffs, crashes, mcr = K.correspond(cfg, lines)
+        else:
+            impl, crashes = K.run_impl(cfg, lines)
+            model, diffs = [], []
+        rep.count("openers-at-end/%s/opt%d" % (cfg, opt), len(lines))
+        for idx, rc, err in crashes:
+            found = True
+            rep.finding("crash", "read crashed", {"kind": "read", "config": cfg, "opt": opt, "input_hex": C.hexs(docs[idx]), "stderr": err[:3000]})
+        for i in diffs[:5]:
+            rep.broken_obligation("correspondence/openers-at-end", "model %r vs code %r on %r" % ((model[i] or "")[:200], (impl[i] or "")[:200], docs[i][-60:]), False)
+        nerr = 0
+        for d, a in zip(docs, impl):
+            if a is None:
+                continue
+            if a.startswith("err "):
+                nerr += 1
+                if check_error(rep, cfg, d, a, opt):
+                    found = True
+            elif a.startswith("ok "):
+                prob = check_tree(sexp.parse_result(a), len(d))
+                if prob:
+                    found = True
+                    rep.finding("value-range", prob, {"kind": "read", "config": cfg, "opt": opt, "input_hex": C.hexs(d), "observed": a[:400]})
+        rep.count("openers-at-end-errors/%s/opt%d" % (cfg, opt), nerr)
+        rep.note_cases(len(lines), set(C.sha(l)[:16] for l in lines), sample={"doc": docs[len(docs) // 2][-80:].decode("latin-1"), "result": (impl[len(docs) // 2] or "")[:200]})
+    return found
+
+
 def run(tier):
     rep = C.Report(PID, tier, "proof")
     rng = C.rng(PID)
@@ -136,6 +232,11 @@ def run(tier):
                             {"kind": "reread", "config": cfg, "input_hex": C.hexs(alldocs[i]), "start": s, "end": e, "expected": "ok " + exp, "observed": got[:400]})
         rep.note_cases(len(alldocs) + len(rl), set(C.sha(d)[:16] for d in alldocs + reread), sample={"doc": alldocs[0][:200].decode("latin-1"), "result": (impl[0] or "")[:300]})
 
+    # ---- openers / markers / token starts as the last bytes of the input, at every nesting depth around the limit, all configurations
+    for cfg in ("core", "clj", "exp", "both"):
+        if edge_family(rep, rng, cfg, tier):
+            found = True
+
     # ---- newline index entry points (exhaustive small + long random)
     lf = []
     import itertools
@@ -177,6 +278,6 @@ def replay(path):
         doc = bytes.fromhex(r["input_hex"])
         if r.get("kind") == "reread":
             doc = doc[r["start"]:r["end"]]
-        out = C.run_lines(exe, K.read_lines([doc]))
+        out = C.run_lines(exe, K.read_lines([doc], r.get("opt", 0)))
     print("now:", out.outputs)
     return 0
